@@ -36,6 +36,11 @@ func main() {
 		"ElementID.NodeID", "ElementID.WayID", "ElementID.RelationID",
 		// ids of way nodes and relation members (struct receivers: one parameter per field read)
 		"WayNode.FeatureID", "WayNode.ElementID", "Member.FeatureID", "Member.ElementID",
+		// the struct-level methods of the objects themselves (pointer receivers, fields ID / Version)
+		"Node.ObjectID", "Node.FeatureID", "Node.ElementID",
+		"Way.ObjectID", "Way.FeatureID", "Way.ElementID",
+		"Relation.ObjectID", "Relation.FeatureID", "Relation.ElementID",
+		"Changeset.ObjectID", "Note.ObjectID", "User.ObjectID",
 	}
 	text := tr.EmitFuncs2(p, "generator: ids", keys)
 	samples, err := emitSamples(repo, out)
